@@ -484,18 +484,16 @@ var c15Drivers = map[string]*c15Driver{
 					if r.err != nil {
 						return r.err.Error()
 					}
+					// Acks are not demanded: the session decrements its in-flight
+					// count before it sends the ack, so after the client's
+					// half-close the handler may return before the last ack is
+					// sent (not this property's business).  That every message
+					// was appended is decided by the fence.
 					for _, m := range msgs {
-						acked := false
 						for _, p := range r.resps {
 							if p.CorrelationId == m.corr && p.AsyncError != nil {
 								return fmt.Sprintf("message %s: async error %v", m.corr, p.AsyncError)
 							}
-							if p.CorrelationId == m.corr && p.Ack != nil {
-								acked = true
-							}
-						}
-						if pol != client.AckPolicy_NONE && !acked {
-							return fmt.Sprintf("message %s: no ack", m.corr)
 						}
 					}
 					return ""
@@ -840,6 +838,11 @@ func (w *c15World) exec(set int, call *c15Call) {
 		}
 	}
 
+	if dec != c15Undet && w.sampled < 4 {
+		w.sampled++
+		rep.Sample(map[string]interface{}{"case": tag, "request": call.Req, "expected": dec.String(), "returned_error": fmt.Sprint(res.err),
+			"state_diff": c15DescribeDiff(d0, d1, diff), "appended_unexpectedly": published, "fenced_partitions": len(f.offsets), "standing_subscriptions_checked": len(f.extra)})
+	}
 	switch dec {
 	case c15Undet:
 		rep.Count("undetermined/"+call.Method, 1)
@@ -954,6 +957,7 @@ func c15Assumptions(rep *kit.Report) {
 	rep.Assume("Authorisation is switched on the way an operator does it: the server is started with TLS key/cert (the repository's test certificates), TLSClientAuthz and generated model/policy files, so the casbin enforcer is the one startAPIServer builds. No TLS connection is made: calls are dispatched in-process through the generated gRPC service descriptor and the real AuthzUnaryInterceptor / AuthzStreamInterceptor, with peer info holding a verified chain whose leaf CommonName is the client id (what addUserContext reads). The TLS handshake itself and the gRPC transport are not exercised.")
 	rep.Assume("Expected decisions come from documentation/authentication_authorization.md and the repository's authz tests: action = method name, resource = stream name, '*' for FetchMetadata, the NATS subject for PublishToSubject, and additionally Publish on __cursors for SetCursor; the casbin model is the documented exact-match ACL model (a '*' policy line is literal). PublishAsync is decided per message with action Publish. FetchCursor by a client holding FetchCursor on the stream but not every line on __cursors is left undetermined (the documentation is ambiguous).")
 	rep.Assume("Consumer-group RPCs have no documented ACL action. They are judged only for a client with no policy line at all (must be refused, whatever the matching entry would be) and for the admin client holding the method name on group id, streams and '*' (must work); other clients are counted as undetermined. FetchConsumerGroupAssignments changes nothing and has no documented action: an accepted call by the stranger is counted as an observation (observed_unguarded_readonly), not as a violation.")
+	rep.Assume("A reload is awaited on its logical effect (the enforcer answers with the generation marker line of the new file), never by sleeping. 'Reload never took effect' is reported as a violation only under a stuck-state predicate: SIGHUP was seen on a twin signal.Notify channel (the runtime hands a signal to every registered channel in one pass, so the server's channel received it too), was re-delivered three times, and authorised round trips through NATS and Raft completed in between while the enforcer kept answering with the old policy; a signal that is not dispatched or a process that makes no progress is inconclusive.")
 	rep.Assume("'Nothing published' is decided by a fence: an authorised marker is published with AckPolicy ALL to every partition that is neither paused nor read-only; the server uses one NATS connection for all publishes, so anything the examined call put on a subject is sequenced before the marker and shows in the marker's offset. Paused / read-only partitions are compared by newest offset directly. Consumer and coordinator timeouts are set to one hour and auto-pause is off so that no wall-clock event changes the digest.")
 }
 
@@ -1003,14 +1007,14 @@ func TestVerifC15ACL(t *testing.T) {
 			}
 			if !applied {
 				rep.Eval()
-				rep.Violation("C15:reload:not-applied", fmt.Sprintf("set %d: policy file rewritten and SIGHUP delivered %d times (each seen on the twin signal channel, the process kept serving authorised calls in between), but the enforcer still does not answer with the new policy after %v", set, 3, 3*c15Wait),
+				rep.Violation("C15:reload:not-applied", fmt.Sprintf("set %d: policy file rewritten and SIGHUP delivered %d times (each seen on the twin signal channel, the process kept serving authorised calls in between), but the enforcer still does not answer with the new policy after %v", set, 3, 3*c15Wait/2),
 					map[string]interface{}{"seed": kit.Seed(), "policy_set": set, "policy_file": w.policyPath})
 				return
 			}
 			rep.Count("policy_reloads_by_sighup", 1)
 		}
 		calls := w.genCalls(methods, rng.Fork(2))
-		if set < 2 {
+		if gen == 1 {
 			var lines int
 			for _, c := range c15Cli {
 				lines += len(pol.Lines[c])
@@ -1104,7 +1108,7 @@ func TestVerifC15Reload(t *testing.T) {
 		}
 		if !applied {
 			rep.Eval()
-			rep.Violation("C15:reload:not-applied", fmt.Sprintf("round %d: policy file rewritten and SIGHUP delivered 3 times (each seen on the twin signal channel, the process kept serving authorised calls in between), but the enforcer still does not answer with the new policy after %v", round, 3*c15Wait),
+			rep.Violation("C15:reload:not-applied", fmt.Sprintf("round %d: policy file rewritten and SIGHUP delivered 3 times (each seen on the twin signal channel, the process kept serving authorised calls in between), but the enforcer still does not answer with the new policy after %v", round, 3*c15Wait/2),
 				map[string]interface{}{"seed": kit.Seed(), "round": round, "policy_file": w.policyPath})
 			return
 		}
